@@ -136,7 +136,7 @@ func gen(c *hx.Ctx) {
 	{
 		const T = 1000
 		untils := []int64{900, 1000, 1500, 2500}
-		for _, site := range []int{1, 2, 3} {
+		for _, site := range []int{1, 2, 3, 4} {
 			for _, u := range untils {
 				for _, d := range []int64{900, 1000, 1200} {
 					for _, hon := range []bool{true, false} {
@@ -151,7 +151,7 @@ func gen(c *hx.Ctx) {
 		for i := 0; i < c.Budget(300, 3000); i++ {
 			var ps []park
 			for j := 0; j < 1+c.Rng.Intn(3); j++ {
-				ps = append(ps, park{1 + c.Rng.Intn(3), 1 + c.Rng.Intn(3), int64(500 + c.Rng.Intn(4000))})
+				ps = append(ps, park{1 + c.Rng.Intn(4), 1 + c.Rng.Intn(3), int64(500 + c.Rng.Intn(4000))})
 			}
 			R := 1 + c.Rng.Intn(3)
 			var bs []beh
